@@ -84,9 +84,9 @@ func decodeSubscription(k string, v []byte) (e Subscription, err error) {
 		err = binary.Unmarshal(v, &e)
 	}
 
-	// Decode the key
+	// Decode the key, a subscription has the contract as the first part of its SSID
 	buffer := binary.ToBytes(k)
-	if len(buffer) < 16 {
+	if len(buffer) < 20 {
 		return e, errInvalidKey
 	}
 
